@@ -919,6 +919,18 @@ Definition write_python (d : list (string * pyval)) : list (string * list ascii)
   map (fun kv => (fst kv, py_repr (snd kv))) d.
 End PyText.
 
+(* _pretty_floats on a dict / list / tuple value of a table cell (outside the statement: such a cell is
+   written as the str() of the prettified value and reads back as that string).  Inside a container the
+   recursive calls do not pass n on: the default n = 2 applies; tuples become lists *)
+Fixpoint pretty_in (v : pyval) : pyval :=
+  match v with
+  | PFloat f => PStr (l2s (fmt 2 f))
+  | PList l => PList (map pretty_in l)
+  | PDict l => PDict (map (fun kv => (fst kv, pretty_in (snd kv))) l)
+  | _ => v
+  end.
+Definition render_nested (F : floatlayer) (v : pyval) : ctext := CT (l2s (py_repr F (pretty_in v))).
+
 Definition is_alpha_ (c : ascii) : bool :=
   let z := code c in ((65 <=? z) && (z <=? 90)) || ((97 <=? z) && (z <=? 122)) || (z =? 95).
 Definition is_ident (s : string) : bool :=
